@@ -373,3 +373,47 @@ package s3db
 //@       rowOf(out.Value[j].(crdt.Value).Value) == in.Value[j].Value)
 //@   loop 3 invariant forall j int :: imp(0 <= j && j <= rangeindex, out.Link[j] == decLink(in.Link[j]))
 //@   loop 3 invariant forall j int :: imp(rangeindex < j && j < len(out.Link), out.Link[j] == nil)
+
+// ---------------------------------------------------------------------------
+// Table definition (property C20)
+
+// Package-level variables assigned once at initialisation and never again.
+//@ global tables nonnil
+//@ global ErrS3DBConstraintNotNull nonnil
+//@ global ErrS3DBConstraintPrimaryKey nonnil
+//@ global ErrS3DBConstraintUnique nonnil
+
+//@ func dbg
+//@   modifies nothing
+
+// OpenKV: read-only options never cause a PUT or DELETE (C13); a failure
+// leaves the bucket untouched only in that case.
+//@ func OpenKV
+//@   modifies puts, deletes, inMemoryS3, inMemoryBucket
+//@   ensures imp(s3opts.ReadOnly, puts == old(puts) && deletes == old(deletes))
+//@   ensures imp(err == nil, result0 != nil && fresh(result0) && result0.Root != nil)
+//@   ensures imp(err != nil, result0 == nil)
+
+//@ func convertSchema
+//@   requires t != nil
+//@   modifies t.usesRowID, t.KeyCol, t.SchemaString, t.schema, t.ColumnIndexByName, t.ColumnNameByIndex
+//@   ensures imp(result == nil, t.SchemaString != "")
+
+// New: never panics, rejects duplicated and unknown arguments, and registers
+// the table only on success (an error leaves the registry unchanged).
+//@ func New
+//@   modifies contents(tables), puts, deletes, inMemoryS3, inMemoryBucket
+//@   ensures registry-on-error: forall k string :: imp(err != nil, has(tables, k) == old(has(tables, k)) && tables[k] == old(tables[k]))
+//@   ensures registered: imp(err == nil, result0 != nil && fresh(result0) && result0.Name == old(args[0]) && has(tables, old(args[0])) && tables[old(args[0])] == result0 && !old(has(tables, args[0])))
+//@   ensures others-kept: forall k string :: imp(err == nil && k != old(args[0]), has(tables, k) == old(has(tables, k)) && tables[k] == old(tables[k]))
+//@   ensures error-nil-result: imp(err != nil, result0 == nil)
+//@   loop 1 modifies contents(seen), table.S3Options, table.usesRowID, table.KeyCol, table.SchemaString, table.schema, table.ColumnIndexByName, table.ColumnNameByIndex
+//@   ensures entries-per-node: forall j int :: imp(err == nil && 0 <= j && j < len(args) - 1 && splitKey(old(args[1:][j])) == "entries_per_node", result0.S3Options.EntriesPerNode == int(parseInt(splitVal(old(args[1:][j])), 0, 32)))
+//@   ensures node-cache-entries: forall j int :: imp(err == nil && 0 <= j && j < len(args) - 1 && splitKey(old(args[1:][j])) == "node_cache_entries", result0.S3Options.NodeCacheEntries == int(parseInt(splitVal(old(args[1:][j])), 0, 32)))
+//@   ensures readonly: forall j int :: imp(err == nil && 0 <= j && j < len(args) - 1 && splitKey(old(args[1:][j])) == "readonly", result0.S3Options.ReadOnly)
+//@   loop 1 invariant -1 <= rangeindex && rangeindex < len(args_cur) && table != nil && fresh(table) && table.Name == old(args[0])
+//@   loop 1 invariant len(args_cur) == len(args) - 1 && args_cur.arr == args.arr && args_cur.off == args.off + 1
+//@   loop 1 invariant forall j int :: imp(0 <= j && j <= rangeindex, has(seen, splitKey(args_cur[j])))
+//@   loop 1 invariant forall j int :: imp(0 <= j && j <= rangeindex && splitKey(args_cur[j]) == "entries_per_node", table.S3Options.EntriesPerNode == int(parseInt(splitVal(args_cur[j]), 0, 32)))
+//@   loop 1 invariant forall j int :: imp(0 <= j && j <= rangeindex && splitKey(args_cur[j]) == "node_cache_entries", table.S3Options.NodeCacheEntries == int(parseInt(splitVal(args_cur[j]), 0, 32)))
+//@   loop 1 invariant forall j int :: imp(0 <= j && j <= rangeindex && splitKey(args_cur[j]) == "readonly", table.S3Options.ReadOnly)
